@@ -16,6 +16,7 @@ import (
 	"strconv"
 	"strings"
 	"sync"
+	"sync/atomic"
 	"syscall"
 	"time"
 	"unsafe"
@@ -118,6 +119,7 @@ type shardState struct {
 	skip     []uint64
 	restarts int
 	done     bool
+	busy     atomic.Bool
 	res      *Result
 	exited   chan error
 }
@@ -148,7 +150,7 @@ func hangLimit() time.Duration {
 			return time.Duration(n) * time.Second
 		}
 	}
-	return 90 * time.Second
+	return 45 * time.Second
 }
 
 // RunParent runs a whole check and returns the process exit code.
@@ -227,36 +229,51 @@ func RunParent(o ParentOpts) int {
 		}
 	}
 
+	var mu sync.Mutex
 	handleDeath := func(s *shardState, why string) {
-		deaths++
-		c := *s.status.Word(0)
-		f, confirmed, reason := confirmDeath(o, c)
-		if confirmed {
-			f.Key = "fatal:" + f.Group + ":" + reason
-			f.Desc = fmt.Sprintf("worker process %s while executing this case (%s); reproduced 3/3 in isolation", why, reason)
-			extraFailures = append(extraFailures, f)
-		} else {
-			notes = append(notes, fmt.Sprintf("shard %d %s at case #%d but the case did not reproduce the death in isolation (%s); treated as a harness fault, not a violation", s.idx, why, c, reason))
-		}
-		s.skip = append(s.skip, c)
-		s.restarts++
-		if s.restarts > 12 {
-			notes = append(notes, fmt.Sprintf("shard %d abandoned after %d restarts", s.idx, s.restarts))
-			s.done = true
-			s.res = &Result{Shard: s.idx, Groups: map[string]*GroupStat{}, Deadline: true}
-			return
-		}
-		if err := launch(s); err != nil {
-			notes = append(notes, "relaunch failed: "+err.Error())
-			s.done = true
-			s.res = &Result{Shard: s.idx, Groups: map[string]*GroupStat{}, Deadline: true}
-		}
+		s.busy.Store(true)
+		go func() {
+			defer s.busy.Store(false)
+			c := *s.status.Word(0)
+			f, confirmed, reason := confirmDeath(o, c)
+			mu.Lock()
+			defer mu.Unlock()
+			deaths++
+			if confirmed {
+				f.Key = "fatal:" + f.Group + ":" + reason
+				f.Desc = fmt.Sprintf("worker process %s while executing this case (%s); reproduced 3/3 in isolation", why, reason)
+				extraFailures = append(extraFailures, f)
+			} else {
+				notes = append(notes, fmt.Sprintf("shard %d %s at case #%d but the case did not reproduce the death in isolation (%s); treated as a harness fault, not a violation", s.idx, why, c, reason))
+			}
+			s.skip = append(s.skip, c)
+			s.restarts++
+			abandon := func(msg string) {
+				notes = append(notes, msg)
+				s.res = &Result{Shard: s.idx, Groups: map[string]*GroupStat{}, Deadline: true}
+				s.done = true
+			}
+			if s.restarts > 2 {
+				abandon(fmt.Sprintf("shard %d abandoned after %d deaths (its remaining cases were not explored)", s.idx, s.restarts))
+				return
+			}
+			if err := launch(s); err != nil {
+				abandon("relaunch failed: " + err.Error())
+			}
+		}()
 	}
 
 	for {
 		alldone := true
 		for _, s := range shards {
-			if s.done {
+			if s.busy.Load() {
+				alldone = false
+				continue
+			}
+			mu.Lock()
+			done := s.done
+			mu.Unlock()
+			if done {
 				continue
 			}
 			alldone = false
@@ -429,7 +446,11 @@ func RunParent(o ParentOpts) int {
 	for _, l := range knownLines {
 		fmt.Println(l)
 	}
-	for _, l := range violLines {
+	for i, l := range violLines {
+		if i == 20 {
+			fmt.Printf("(%d more distinct violation keys not printed; replay files are in %s)\n", len(violLines)-20, repDir)
+			break
+		}
 		fmt.Println(l)
 	}
 
@@ -542,7 +563,7 @@ func confirmDeath(o ParentOpts, counter uint64) (Failure, bool, string) {
 	var f Failure
 	reason := ""
 	for n := 0; n < 3; n++ {
-		ctx, cancel := context.WithTimeout(context.Background(), 120*time.Second)
+		ctx, cancel := context.WithTimeout(context.Background(), confirmLimit())
 		cmd := exec.CommandContext(ctx, o.Exe, "worker", o.CheckID, "--tier", o.Tier, "--seed", strconv.FormatInt(o.Seed, 10),
 			"--shard", "0", "--of", "1", "--only", strconv.FormatUint(counter, 10))
 		var out, errb bytes.Buffer
@@ -566,6 +587,15 @@ func confirmDeath(o ParentOpts, counter uint64) (Failure, bool, string) {
 		}
 	}
 	return f, true, reason
+}
+
+func confirmLimit() time.Duration {
+	if v := os.Getenv("VERIF_CONFIRM_S"); v != "" {
+		if n, err := strconv.Atoi(v); err == nil {
+			return time.Duration(n) * time.Second
+		}
+	}
+	return 40 * time.Second
 }
 
 func fatalClass(stderr string) string {
